@@ -80,6 +80,94 @@ def Op.str : Op → String
   | .cmp c => s!"c{c}"
   | .user id a b => s!"u{id}:{hx a}:{hx b}"
 
+def parseFld (s : String) : Fld :=
+  match splitOn s ":" with
+  | [n, e, a] => { name := unhx n, exported := e == "e", anon := a == "a" }
+  | _ => { name := [], exported := false, anon := false }
+
+/-- first characters of the EV literal forms (see harness/equal.go) -/
+def isEVTok (t : String) : Bool := "ptuzPQMTfcIJ".toList.contains t.front
+
+mutual
+/-- elements up to the closing `]` -/
+partial def parseEVs (acc : List EV) (ts : List String) : List EV × List String :=
+  match ts with
+  | [] => (acc.reverse, [])
+  | "]" :: ts' => (acc.reverse, ts')
+  | _ => let (v, ts') := parseEV ts; parseEVs (v :: acc) ts'
+
+/-- `key value key value … ]` -/
+partial def parseEVPairs (ks vs : List EV) (ts : List String) : List EV × List EV × List String :=
+  match ts with
+  | [] => (ks.reverse, vs.reverse, [])
+  | "]" :: ts' => (ks.reverse, vs.reverse, ts')
+  | _ =>
+    let (k, ts1) := parseEV ts
+    let (v, ts2) := parseEV ts1
+    parseEVPairs (k :: ks) (v :: vs) ts2
+
+/-- `meta value meta value … ]` -/
+partial def parseEVFields (fs : List Fld) (vs : List EV) (ts : List String) : List Fld × List EV × List String :=
+  match ts with
+  | [] => (fs.reverse, vs.reverse, [])
+  | "]" :: ts' => (fs.reverse, vs.reverse, ts')
+  | m :: ts1 =>
+    let (v, ts2) := parseEV ts1
+    parseEVFields (parseFld m :: fs) (v :: vs) ts2
+
+partial def parseEV : List String → EV × List String
+  | [] => (.inil, [])
+  | t :: rest =>
+    let c := t.front
+    let body := (t.drop 1).toString
+    if t == "I" then (.inil, rest)
+    else if t == "J" then let (e, r) := parseEV rest; (.iface e, r)
+    else if t == "P" then
+      match rest with
+      | ty :: rest' => let (e, r) := parseEV rest'; (.ptr (toNat ty) e, r)
+      | _ => (.inil, [])
+    else if t == "Q" then
+      match rest with
+      | a :: ety :: cap :: _ :: rest' =>
+        let (xs, r) := parseEVs [] rest'
+        (.seq (a == "a") (toNat ety) (toNat cap) xs, r)
+      | _ => (.inil, [])
+    else if t == "M" then
+      match rest with
+      | ty :: _ :: rest' =>
+        let (ks, vs, r) := parseEVPairs [] [] rest'
+        (.map (toNat ty) ks vs, r)
+      | _ => (.inil, [])
+    else if t == "T" then
+      match rest with
+      | ty :: _ :: rest' =>
+        let (fs, vs, r) := parseEVFields [] [] rest'
+        (.struct (toNat ty) fs vs, r)
+      | _ => (.inil, [])
+    else if c == 'p' then
+      match splitOn body ":" with
+      | [ty, h, n] => (.prim (toNat ty) (unhx h) (n == "1"), rest)
+      | _ => (.inil, rest)
+    else if c == 't' then
+      match splitOn body ":" with
+      | [ty, h] => (.named (toNat ty) (unhx h), rest)
+      | _ => (.inil, rest)
+    else if c == 'u' then
+      match splitOn body ":" with
+      | [u, n] => (.uptr (u == "1") (toNat n), rest)
+      | _ => (.inil, rest)
+    else if c == 'z' then (.nilptr (toNat body), rest)
+    else if c == 'f' then
+      match splitOn body ":" with
+      | [ty, id] => (.func (toNat ty) (toNat id), rest)
+      | _ => (.inil, rest)
+    else if c == 'c' then
+      match splitOn body ":" with
+      | [ty, id] => (.chan (toNat ty) (toNat id), rest)
+      | _ => (.inil, rest)
+    else (.inil, rest)
+end
+
 mutual
 partial def parseVals (acc : List Val) (ts : List String) : List Val × List String :=
   match ts with
@@ -93,6 +181,9 @@ partial def parseVal : List String → Val × List String
     let c := t.front
     let body := (t.drop 1).toString
     if t == "N" then (.nil, rest)
+    else if isEVTok t then
+      let (e, r) := parseEV (t :: rest)
+      (.leaf (.ev e), r)
     else if t == "K" then
       match rest with
       | f :: cfg :: _ :: rest' =>
@@ -157,6 +248,23 @@ def showCfg (c : Cfg) (isCond : Bool := false) : String :=
     (match c.evl with | some p => [s!"evl={p}"] | none => [])
   if parts.isEmpty then "-" else ",".intercalate parts
 
+/-- inverse of `parseEV` -/
+partial def showEV : EV → String
+  | .prim ty t n => s!"p{ty}:{hx t}:{if n then 1 else 0}"
+  | .named ty t => s!"t{ty}:{hx t}"
+  | .uptr u n => s!"u{if u then 1 else 0}:{n}"
+  | .nilptr ty => s!"z{ty}"
+  | .ptr ty e => s!"P {ty} {showEV e}"
+  | .seq a ety cap xs => (s!"Q {if a then "a" else "s"} {ety} {cap} [ " ++ " ".intercalate (xs.map showEV)).trimAsciiEnd.toString ++ " ]"
+  | .map ty ks vs => (s!"M {ty} [ " ++ " ".intercalate ((ks.zip vs).map (fun p => s!"{showEV p.1} {showEV p.2}"))).trimAsciiEnd.toString ++ " ]"
+  | .struct ty fs vs =>
+      (s!"T {ty} [ " ++ " ".intercalate ((fs.zip vs).map (fun p =>
+        s!"{hx p.1.name}:{if p.1.exported then "e" else "p"}:{if p.1.anon then "a" else "n"} {showEV p.2}"))).trimAsciiEnd.toString ++ " ]"
+  | .func ty id => s!"f{ty}:{id}"
+  | .chan ty id => s!"c{ty}:{id}"
+  | .inil => "I"
+  | .iface e => s!"J {showEV e}"
+
 /-- inverse of `parseVal` -/
 partial def showVal : Val → String
   | .nil => "N"
@@ -166,6 +274,7 @@ partial def showVal : Val → String
   | .leaf (.num ty t) => s!"n{ty}:{hx t}"
   | .leaf (.stringer id t z) => s!"g{id}:{hx t}:{if z then 1 else 0}"
   | .leaf (.opaque cls id) => s!"o{cls}:{id}"
+  | .leaf (.ev e) => showEV e
   | .stk f c xs => (s!"K {Form.str f} {showCfg c} [ " ++ " ".intercalate (xs.map showVal)).trimAsciiEnd.toString ++ " ]"
   | .cnd f c kw op ex => s!"C {Form.str f} {showCfg c true} {hx kw} {Op.str op} {showVal ex}"
   | .zstk f => s!"Z {Form.str f}"
@@ -185,6 +294,7 @@ def short : Val → String
   | .leaf (.num ty t) => s!"n{ty}:{hx t}"
   | .leaf (.stringer id t z) => s!"g{id}:{hx t}:{if z then 1 else 0}"
   | .leaf (.opaque cls id) => s!"o{cls}:{id}"
+  | .leaf (.ev _) => "e"
   | .stk _ c xs => s!"K{c.kind}#{xs.length}"
   | .cnd _ _ kw _ _ => s!"C#{hx kw}"
   | .anys xs => s!"A#{xs.length}"
